@@ -106,6 +106,8 @@ pub struct PrintOpts {
     pub flags_inline: bool,
     /// `{n,m}` as `{ n , m }` (only valid under `(?x)`)
     pub spaced_braces: bool,
+    /// `[0-9A-Fa-f]` as `\h`, its negation as `\H`, U+001B as `\e`
+    pub short_escapes: bool,
 }
 
 impl PrintOpts {
@@ -185,6 +187,10 @@ impl<'o> P<'o> {
                 self.t(".");
                 self.t(")");
             }
+            Class(neg, rs) if self.opts.short_escapes && *rs == [('0', '9'), ('A', 'F'), ('a', 'f')] => {
+                self.t(if *neg { "\\H" } else { "\\h" });
+            }
+            Lit('\u{1b}') if self.opts.short_escapes => self.t("\\e"),
             Class(neg, rs) => {
                 let mut s = String::from("[");
                 if *neg {
